@@ -1,0 +1,155 @@
+//! Verification hooks (cargo feature `fuellabs_sway_verif`, off by default).
+//!
+//! `verif_point!("name")` marks a shared-state access of the compilation scheduling protocol
+//! (`is_compiling`, `retrigger_compilation`, the compilation channel, `finished_compilation`,
+//! `last_compilation_state`). The macro expands to nothing without the feature. With the feature
+//! it calls [`point`], which is inert unless the environment variable `SWAY_VERIF_SCHED` is set.
+//! When it is set, every point is appended to a global trace, and a point that is *held* (by
+//! name, or all of them) blocks its thread until a test harness grants it.
+//!
+//! A point is placed directly *before* the access it names and is logged when the thread is let
+//! through, so under "hold all" the trace order is the order of the accesses.
+
+use std::{
+    cell::Cell,
+    collections::{BTreeMap, BTreeSet},
+    sync::{Condvar, Mutex, MutexGuard, OnceLock},
+    time::{Duration, Instant},
+};
+
+/// Thread id used in the trace. Threads that never called [`set_thread_id`] (the compilation
+/// worker thread) are reported as `0`.
+pub type Tid = u32;
+
+#[derive(Default)]
+pub struct Inner {
+    /// Points passed so far, in the order in which threads were let through.
+    pub trace: Vec<(Tid, &'static str)>,
+    /// Threads currently blocked at a held point.
+    pub waiting: BTreeMap<Tid, &'static str>,
+    /// Last point each thread arrived at (held or not).
+    pub last_point: BTreeMap<Tid, &'static str>,
+    /// Free-form per-thread status for the harness (e.g. "future returned Pending").
+    pub user: BTreeMap<Tid, u32>,
+    grants: BTreeSet<Tid>,
+    hold_all: bool,
+    holds: BTreeSet<String>,
+}
+
+struct Global {
+    inner: Mutex<Inner>,
+    cv: Condvar,
+}
+
+fn global() -> &'static Global {
+    static G: OnceLock<Global> = OnceLock::new();
+    G.get_or_init(|| Global {
+        inner: Mutex::new(Inner::default()),
+        cv: Condvar::new(),
+    })
+}
+
+fn lock() -> MutexGuard<'static, Inner> {
+    global().inner.lock().unwrap_or_else(|e| e.into_inner())
+}
+
+thread_local! {
+    static TID: Cell<Tid> = const { Cell::new(0) };
+}
+
+/// True when `SWAY_VERIF_SCHED` is set (read once).
+pub fn enabled() -> bool {
+    static E: OnceLock<bool> = OnceLock::new();
+    *E.get_or_init(|| std::env::var_os("SWAY_VERIF_SCHED").is_some())
+}
+
+/// Names the calling thread in the trace.
+pub fn set_thread_id(tid: Tid) {
+    TID.with(|t| t.set(tid));
+}
+
+/// See the module documentation.
+pub fn point(name: &'static str) {
+    if !enabled() {
+        return;
+    }
+    let tid = TID.with(|t| t.get());
+    let g = global();
+    let mut inner = lock();
+    inner.last_point.insert(tid, name);
+    if inner.hold_all || inner.holds.contains(name) {
+        inner.waiting.insert(tid, name);
+        g.cv.notify_all();
+        while !inner.grants.remove(&tid) {
+            inner = g.cv.wait(inner).unwrap_or_else(|e| e.into_inner());
+        }
+        inner.waiting.remove(&tid);
+    }
+    inner.trace.push((tid, name));
+    g.cv.notify_all();
+}
+
+/// Hold every point (`true`) or only the named ones (`false`).
+pub fn hold_all(on: bool) {
+    lock().hold_all = on;
+}
+
+/// Hold the point `name` from now on.
+pub fn hold(name: &str) {
+    lock().holds.insert(name.to_string());
+}
+
+/// Stop holding the point `name` (threads already blocked there still need a [`grant`]).
+pub fn unhold(name: &str) {
+    lock().holds.remove(name);
+}
+
+/// Lets the thread `tid`, blocked at a held point, pass that one point.
+pub fn grant(tid: Tid) {
+    let g = global();
+    lock().grants.insert(tid);
+    g.cv.notify_all();
+}
+
+/// Runs `f` on the shared state and wakes everybody waiting in [`wait_until`].
+pub fn with<R>(f: impl FnOnce(&mut Inner) -> R) -> R {
+    let g = global();
+    let r = f(&mut lock());
+    g.cv.notify_all();
+    r
+}
+
+/// Blocks until `cond` holds or `timeout` elapsed; returns the final value of `cond`.
+pub fn wait_until(timeout: Duration, mut cond: impl FnMut(&mut Inner) -> bool) -> bool {
+    let g = global();
+    let deadline = Instant::now() + timeout;
+    let mut inner = lock();
+    loop {
+        if cond(&mut inner) {
+            return true;
+        }
+        let now = Instant::now();
+        if now >= deadline {
+            return false;
+        }
+        inner = g
+            .cv
+            .wait_timeout(inner, deadline - now)
+            .unwrap_or_else(|e| e.into_inner())
+            .0;
+    }
+}
+
+/// Clears trace, holds and statuses (threads blocked at a point are granted).
+pub fn reset() {
+    let g = global();
+    let mut inner = lock();
+    let blocked: Vec<Tid> = inner.waiting.keys().copied().collect();
+    inner.hold_all = false;
+    inner.holds.clear();
+    inner.grants.extend(blocked);
+    inner.trace.clear();
+    inner.last_point.clear();
+    inner.user.clear();
+    g.cv.notify_all();
+}
